@@ -136,6 +136,11 @@ class Fixture:
         run("branch", "dev")
         run("tag", "light")
         run("tag", "-a", "annot", "-m", "msg")
+        # symbolic references other than HEAD, as an ordinary clone leaves them
+        run("update-ref", "refs/remotes/origin/main", "HEAD")
+        run("symbolic-ref", "refs/remotes/origin/HEAD", "refs/remotes/origin/main")
+        if self.rng.random() < 0.5:
+            run("symbolic-ref", "refs/heads/stable", "refs/heads/dev")
 
     def path_of(self, kind):
         return {"file": self.file, "dir": self.dir, "linkFile": self.link_file, "linkDir": self.link_dir, "gitRepo": self.repo}.get(kind)
@@ -211,12 +216,15 @@ class Fixture:
 
         env = fs.git_env()
         r = os.fsdecode(self.repo)
-        out = subprocess.run(["git", "-C", r, "for-each-ref", "--format=%(refname) %(objectname) %(objecttype)"], check=True, env=env, stdout=subprocess.PIPE).stdout.decode()
+        out = subprocess.run(["git", "-C", r, "for-each-ref", "--format=%(refname) %(objectname) %(objecttype) %(symref)"], check=True, env=env, stdout=subprocess.PIPE).stdout.decode()
         tmap = {"commit": "revision", "tag": "release", "tree": "directory", "blob": "content"}
         branches = {}
         for line in out.splitlines():
-            ref, sha, ty = line.split()
-            branches[ref.encode()] = model.SnapshotBranch(target=bytes.fromhex(sha), target_type=model.SnapshotTargetType(tmap[ty]))
+            ref, sha, ty, *sym = line.split()
+            if sym:  # a symbolic reference is an alias branch
+                branches[ref.encode()] = model.SnapshotBranch(target=sym[0].encode(), target_type=model.SnapshotTargetType.ALIAS)
+            else:
+                branches[ref.encode()] = model.SnapshotBranch(target=bytes.fromhex(sha), target_type=model.SnapshotTargetType(tmap[ty]))
         head = subprocess.run(["git", "-C", r, "symbolic-ref", "HEAD"], check=True, env=env, stdout=subprocess.PIPE).stdout.decode().strip()
         branches[b"HEAD"] = model.SnapshotBranch(target=head.encode(), target_type=model.SnapshotTargetType.ALIAS)
         return str(model.Snapshot(branches=branches).swhid())
